@@ -9,6 +9,7 @@ import thr_checks
 import sub_checks
 import gen_checks
 import conv_checks
+import cycle_checks
 import err_checks
 import alias_checks
 import pre_checks
@@ -48,6 +49,7 @@ def _c04(v, b, tier):
     tpl_checks.check_c04(v, b.t1_summary, 70 * SIZES[tier], 6)
     hooks_checks.check_hooks(v, b.t1_summary)
     conv_checks.check_conv(v, "C04", b.t1_summary, 30 * SIZES[tier])
+    cycle_checks.cycle_battery(v, "C04", 150 * SIZES[tier])
 
 
 def _c09(v, b, tier):
@@ -84,6 +86,7 @@ def _c17(v, b, tier):
 
 def _c10(v, b, tier):
     tpl_checks.check_c10(v, b.t1_summary, 60 * SIZES[tier], 5)
+    tagged_checks.check_c10_tagged(v, 80 * SIZES[tier])
 
 
 CORE_CONV = ["Model/Base.v", "Model/Templates.v", "Model/Conv.v", "Model/ConvSpec.v", "Model/ConvLane.v", "Model/HookTable.v", "Gen/GenSrc.v", "Gen/HooksSrc.v",
@@ -96,13 +99,18 @@ RULE_CONV = ("worlds = 2 enums + 1-4 generated classes (attrs, frozen attrs, dat
              "Dict/Mapping, Optional, classes, NewType, Annotated; depth <= 3, random spelling); per type 2 conforming values; per value 4 of the 8 converter configurations "
              "(class x validation mode x strategy, 25% with forbid_extra_keys), converters kept alive for the whole world; per configuration: unstructure, structure of the "
              "result by the same and by other configurations, two mutated payloads (corrupt / drop / add / retype a component at any depth) and one junk object; "
-             "non-trivial = composite type or class; distinct = sha1 of (world, operation, configuration, type, input)")
+             "non-trivial = composite type or class; distinct = sha1 of (world, operation, configuration, type, input) ; PLUS the CYCLE battery (oracle only): "
+             "families of 1-3 mutually recursive classes of mixed kinds (attrs, dataclass, NamedTuple, TypedDict) defined as source text in a fresh module, "
+             "cycle closed through Optional / List / Dict / Tuple[.., ...] / a direct reference, 0-2 plain attributes (int, str, float, bool, Enum, List[int], "
+             "Optional[str], Dict[str, Enum]), optional second edge, optional attrs field converters on the reference-carrying attributes; per family the classes are "
+             "used in a random order on converters that live as long as the family; per class 2 values x (unstructure, structure back in both modes, 3 corrupted payloads)")
 
 
 def _conv(prop, base):
     def run(v, b, tier):
         hooks_checks.check_hooks(v, b.t1_summary)
         conv_checks.check_conv(v, prop, b.t1_summary, base * SIZES[tier])
+        cycle_checks.cycle_battery(v, prop, 150 * SIZES[tier])
     return run
 
 
@@ -191,7 +199,9 @@ REGISTRY = {
                     "deriving from a parametrised base (concrete, by the child's TypeVar, with a reused TypeVar name); two parametrisations per class used "
                     "interleaved on one converter; per parametrisation: unstructure, structure, structure of a corrupted payload, each compared with the "
                     "hand-substituted non-generic clone; non-trivial = class with >= 2 attributes; distinct = (class, parametrisation, round)"},
-    "C10": {"props_file": "Props/C10.v", "files": CORE_TPL + ["Props/C10.v"], "run": _c10, "rule": RULE_TPL, "t1_sections": ["gen"]},
+    "C10": {"props_file": "Props/C10.v", "files": CORE_TPL + ["Props/C10.v"], "run": _c10, "t1_sections": ["gen"],
+            "rule": RULE_TPL + " ; PLUS tagged unions (oracle only): 2-4 members x tag generator x tag name x default member or none x forbid on/off x validation mode; payloads = a member's "
+                    "own dict + the tag (known / unknown / missing) + a known set of 0-2 extra keys, key order reversed half of the time, at top level, inside List[U] and inside an attrs class attribute"},
     "C07": {"props_file": "Props/C07.v", "files": CORE_A + ["Props/C07.v"], "run": _c07, "rule": RULE_DISP},
     "C08": {"props_file": "Props/C08.v", "files": CORE_A + ["Props/C08.v"], "run": _c08, "rule": RULE_DISP},
     "C18": {"props_file": "Props/C18.v", "files": CORE_A + ["Props/C18.v"], "run": _c18, "rule": RULE_DISP},
